@@ -160,4 +160,6 @@ def run(ctx):
     rep.floor('R07.2', 'covered transcript items', n_cov, ns * 8 * (3 + 7 + 7))
     from rules import profile
     profile.check(ctx, rep, 'R07.P', ['clog_start', 'slog_start', 'clog_finish', 'slog_finish'])
+    from rules import witness
+    witness.check(ctx, rep, 'R07.W', ['WMoveServer', 'WMoveClient'])
     return rep
